@@ -7,8 +7,9 @@ for pid in "$@"; do
     [ -f "$d/meta.json" ] || continue
     p=$(python3 -c "import json,sys; print(json.load(open('$d/meta.json'))['property'])")
     [ "$p" = "$pid" ] || continue
+    base=$(python3 -c "import json; print(json.load(open('$d/meta.json')).get('base', 'HEAD'))")   # a seed made harmless by a later repair is evaluated on its base commit
     wt=$(mktemp -d /tmp/seedwt-XXXXXX); rmdir "$wt"
-    git -C /repo worktree add -q --detach "$wt" HEAD || { echo "BROKEN $d (worktree)"; continue; }
+    git -C /repo worktree add -q --detach "$wt" "$base" || { echo "BROKEN $d (worktree)"; continue; }
     if git -C "$wt" apply "$(pwd)/$d/patch.diff" 2>/dev/null; then
       VERIF_REPO="$wt" ./check "$pid" --no-evidence > "/tmp/seedrun-$(basename $d).log" 2>&1; rc=$?
       n=$(grep -c '^VIOLATION' "/tmp/seedrun-$(basename $d).log")
